@@ -65,8 +65,10 @@ def solve_knapsack(
     # Convert to integer capacity for DP (scale if needed)
     int_capacity, scale = _to_int_capacity(capacity, weights)
 
-    # Scale weights
-    int_weights = [max(1, int(w * scale)) if w > 0 else 0 for w in weights]
+    # Scale weights, rounding down (never up): every subset that really fits also fits the scaled
+    # problem, so a DP answer that passes the weight check below is a true optimum.
+    # The 1e-9 absorbs products like 2.01 * 1000 == 2009.9999999999998.
+    int_weights = [int(w * scale + 1e-9) for w in weights]
 
     # DP table: dp[w] = max value achievable with capacity w
     dp = [0.0] * (int_capacity + 1)
@@ -125,7 +127,7 @@ def _to_int_capacity(capacity: float, weights: Sequence[float]) -> tuple[int, fl
         return 0, 1.0
 
     scale = min(max_capacity / capacity, 1000.0)
-    return int(capacity * scale), scale
+    return int(capacity * scale + 1e-9), scale
 
 
 def _greedy_fallback(
